@@ -586,6 +586,15 @@ async fn dump_parts(srv: &mut MainEventLoop) -> Value {
 	json!({"certificates": cv, "accounts": av, "endpoints": ev})
 }
 
+struct CwdGuard(Option<PathBuf>);
+impl Drop for CwdGuard {
+	fn drop(&mut self) {
+		if let Some(p) = self.0.take() {
+			let _ = std::env::set_current_dir(p);
+		}
+	}
+}
+
 fn run_phase(phase: &Value, dir: &str, cas: &[CaServer], ctl: &str) -> Value {
 	let mut out = json!({});
 	if let Some(f) = phase.get("files") {
@@ -611,15 +620,23 @@ fn run_phase(phase: &Value, dir: &str, cas: &[CaServer], ctl: &str) -> Value {
 	if mode == "none" {
 		return out;
 	}
-	let config = Path::new(dir)
-		.join(
-			phase
-				.get("config")
-				.and_then(|v| v.as_str())
-				.unwrap_or("main.toml"),
-		)
-		.display()
-		.to_string();
+	let config_name = phase
+		.get("config")
+		.and_then(|v| v.as_str())
+		.unwrap_or("main.toml");
+	// "config_relative": the main file is named by a path relative to the working directory (as `acmed -c acmed.toml`)
+	let _cwd_guard = if phase.get("config_relative").and_then(|v| v.as_bool()) == Some(true) {
+		let old = std::env::current_dir().ok();
+		let _ = std::env::set_current_dir(dir);
+		Some(CwdGuard(old))
+	} else {
+		None
+	};
+	let config = if _cwd_guard.is_some() {
+		config_name.to_string()
+	} else {
+		Path::new(dir).join(config_name).display().to_string()
+	};
 	let root_certs: Vec<String> = phase
 		.get("root_certs")
 		.and_then(|v| v.as_array())
